@@ -236,6 +236,9 @@ func (g *FuncGen) execCall(x *ssa.Call, st *State) error {
 		}
 		t, err := g.evalBool(cl.Expr, post)
 		if err != nil {
+			if strings.Contains(err.Error(), "needs the string theory") {
+				continue // string facts are only available to functions verified in string mode
+			}
 			return fmt.Errorf("%s: call to %s: ensures %s: %v", g.fname, c.Key, cl.Src, err)
 		}
 		g.assert(fmt.Sprintf("(=> %s %s)", nr, t))
